@@ -30,9 +30,11 @@ def check_prog(ctx, r, prog, n_values):
     rng = ctx.rng("c01", prog["name"])
     canon = Canon(r, prog)
     pn = prog["name"]
-    all_names = sorted({h["name"] for h in handlers(prog)})
+    all_names = sorted({h["name"] for h in handlers(prog) if h["kind"] != "reply"})
     wit = {}  # (part, kind, name) -> a valid document
     for h in handlers(prog):
+        if h["kind"] == "reply":
+            continue  # reply methods have no message type (C07-C09)
         for it in range(n_values):
             texts = draw_args(rng, prog, h)
             ct = canon_args(canon, prog, h, texts)
